@@ -1329,12 +1329,25 @@ impl Director for TwinDirector {
     fn top(&mut self, view: &View) -> TopDec {
         self.inner.last_pending = ' ';
         if !view.has_conn {
-            if self.connected || self.program.is_empty() {
+            let mut redial = false;
+            if let Some(Step::Reconnect { connack }) = self.program.front() {
+                self.inner.connack_extra = connack.clone();
+                self.program.pop_front();
+                self.next_index += 1;
+                self.connected = false;
+                redial = true;
+            }
+            if self.connected || (self.program.is_empty() && !redial) {
                 return TopDec::End;
             }
             self.inner.cur_op = "conn".into();
             self.inner.cur_cancel_safe = false;
             return TopDec::Call(Step::Conn { healthy: true });
+        }
+        if self.continuation.is_none() && matches!(self.program.front(), Some(Step::Reconnect { .. })) {
+            // what the broker still had to say is lost with the connection
+            self.inner.broker.outq.clear();
+            return TopDec::DropConn;
         }
         // the broker's answers enter the inbound stream as soon as they exist, so that their place
         // relative to the program does not depend on how the transport schedule went
